@@ -26,7 +26,8 @@ Proof. exact (validate_raises_lib_only rxm pm js js_iff js_wf v s). Qed.
 Print Assumptions C20_validate_raises_lib_only.
 
 (* process_error terminates on every record (structural recursion through oneOf / anyOf contexts of any depth and
-   width) and maps every well-formed record to a library error with a non-empty message *)
+   width) and maps every well-formed record to a library error with a non-empty message; wf_verr covers the draft-3
+   `required` record (boolean validator value, the missing key at the end of the path) as well *)
 Theorem C20_process_error_total_lib pm e :
   wf_verr pm e = true -> exists le, process_error e = Lib le /\ msg_nonempty (err_msg le) = true.
 Proof. exact (process_error_total_lib pm e). Qed.
@@ -37,15 +38,32 @@ Theorem C20_message_nonempty e le : process_error e = Lib le -> msg_nonempty (er
 Proof. exact (process_error_msg_nonempty e le). Qed.
 Print Assumptions C20_message_nonempty.
 
-(* a `required` error is translated to MissingJsonKeyError exposing a key that is required and absent from the instance *)
+(* a `required` error is translated to MissingJsonKeyError exposing a key that is required and absent from the instance:
+   one of the listed keys (draft 4 and later: the validator value is the list of required keys), or - draft 3, where the
+   validator value is the boolean `required: true` of the property's own sub-schema - the declared property whose name
+   ends the error's path *)
 Theorem C20_required_exposes_key pm e :
   wf_verr pm e = true -> v_kind e = VRequired ->
-  exists k kvs ks m,
-    v_inst e = JObj kvs /\ v_value e = JArr ks /\
+  exists k kvs m,
+    v_inst e = JObj kvs /\
     process_error e = Lib (EMissingKey (Some (JStr k)) m) /\
-    In (JStr k) ks /\ ~ In k (keys kvs).
+    ~ In k (keys kvs) /\
+    ((exists ks, v_value e = JArr ks /\ In (JStr k) ks) \/
+     (v_value e = JBool true /\ last_part (v_path e) = Some (PKey k) /\ In k (v_sprops e))).
 Proof. exact (required_exposes_key pm e). Qed.
 Print Assumptions C20_required_exposes_key.
+
+(* the draft-3 shape alone: every well-formed `required` record with a boolean validator value (it is then `true`) has a
+   path  front ++ [key]  and is translated to MissingJsonKeyError exposing that key - a declared property of the
+   record's schema that the instance lacks *)
+Theorem C20_required_draft3_exposes_path_key pm e b :
+  wf_verr pm e = true -> v_kind e = VRequired -> v_value e = JBool b ->
+  exists k kvs m front,
+    b = true /\ v_inst e = JObj kvs /\ v_path e = front ++ [PKey k] /\
+    process_error e = Lib (EMissingKey (Some (JStr k)) m) /\
+    ~ In k (keys kvs) /\ In k (v_sprops e).
+Proof. exact (required_draft3_exposes_path_key pm e b). Qed.
+Print Assumptions C20_required_draft3_exposes_path_key.
 
 (* a `type` error is translated to InvalidTypeError exposing the offending value and the schema's type declaration
    (expected_type = str(t)), and the value indeed has none of the declared types *)
@@ -143,19 +161,22 @@ Theorem C20_contract_satisfiable rxm pm :
 Proof. exact (js_trivial_contract rxm pm). Qed.
 Print Assumptions C20_contract_satisfiable.
 
-(* REFUTED without the well-formedness premise: jsonschema's draft-3 `required: true` raises a record whose
-   validator_value is a boolean; process_error iterates it and a TypeError escapes.
-   Witness on the code: validate({}, {"$schema": "http://json-schema.org/draft-03/schema#", "properties": {"a": {"required": true}}}) *)
-Theorem C20_process_error_total_refuted :
-  exists e, v_kind e = VRequired /\ v_value e = JBool true /\ process_error e = Raw RTypeError /\
-            forall pm, wf_verr pm e = false.
-Proof. exact process_error_total_refuted. Qed.
-Print Assumptions C20_process_error_total_refuted.
+(* the record of the repaired defect: jsonschema's draft-3 `required: true` raises a record whose validator_value is a
+   boolean; it is well-formed and is translated to MissingJsonKeyError exposing "a" (process_error used to iterate the
+   boolean: TypeError).
+   On the code: validate({}, {"$schema": "http://json-schema.org/draft-03/schema#", "properties": {"a": {"required": true}}}) *)
+Theorem C20_draft3_required_translated :
+  (forall pm, wf_verr pm draft3_required_error = true) /\
+  process_error draft3_required_error = Lib (EMissingKey (Some (JStr (codes "a"%string))) m_missing).
+Proof. exact draft3_required_translated. Qed.
+Print Assumptions C20_draft3_required_translated.
 
 (* non-vacuity: an anyOf error two levels deep whose first branch is a `required` failure; an unknown-key error with two
    identifier-like keys (one of them "u", the optional prefix of the regular expression); the same with
    patternProperties {"^x", "_", "abc"}: two keys are allowed by a pattern, the unknown ones are b and u, and the regular
-   expression returns b, u and then the identifier-like patterns _ and abc; a value / schema pair with patternProperties *)
+   expression returns b, u and then the identifier-like patterns _ and abc; a value / schema pair with patternProperties;
+   a draft-3 `required` record two levels down (under key "b c", array position 1) inside an anyOf context, its key "it's"
+   exposed; draft-3 flags: `required: false` constrains nothing, `required: true` rejects the object lacking the property *)
 Local Open Scope string_scope.
 Example C20_example :
   let k s := codes s in
@@ -164,6 +185,9 @@ Example C20_example :
   let req := VErr VRequired (JArr [JStr (k "a"); JStr (k "b")]) (JObj [(k "a", JInt 1)]) None [] false [] [] [] [] in
   let any2 := VErr VAnyOf (JArr []) JNull None [] false [] [] []
                 [VErr VOneOf (JArr []) JNull None [] false [] [] [] [req]; req] in
+  let req3 := VErr VRequired (JBool true) (JObj [(k "x", JInt 1)]) None [k "x"; k "it's"] false []
+                [PKey (k "b c"); PIdx 1; PKey (k "it's")] (k """it's"" is a required property") [] in
+  let any3 := VErr VAnyOf (JArr []) JNull None [] false [] [] [] [req3] in
   let addl := VErr VAdditional (JBool false) (JObj [(k "u", JNull); (k "p", JNull); (k "key_1", JNull)]) None [k "p"] false [] []
                 (addl_message [k "key_1"; k "u"]) [] in
   let pats := [k "^x"; k "_"; k "abc"] in
@@ -172,6 +196,14 @@ Example C20_example :
                  (k "'b', 'u' do not match any of the regexes: '^x', '_', 'abc'") [] in
   wf_verr pm any2 = true /\
   process_error any2 = Lib (EMissingKey (Some (JStr (k "b"))) m_missing) /\
+  wf_verr pm any3 = true /\
+  process_error any3 = Lib (EMissingKey (Some (JStr (k "it's"))) m_missing) /\
+  conforms (fun _ _ => true) pm
+           (SAnd [SProps [(k "a", SAnd [SType [TInteger]; SAnnot]); (k "b", SAnd [SAnnot])] [] None; SRequired3 [(k "a", true); (k "b", false)]])
+           (JObj [(k "a", JInt 3)]) = true /\
+  conforms (fun _ _ => true) pm
+           (SAnd [SProps [(k "a", SAnd [SType [TInteger]; SAnnot]); (k "b", SAnd [SAnnot])] [] None; SRequired3 [(k "a", true); (k "b", false)]])
+           (JObj [(k "b", JInt 3)]) = false /\
   wf_verr pm addl = true /\
   process_error addl = Lib (EInvalidKey (Some (k "key_1")) m_unknown_keys) /\
   wf_verr pm addlp = true /\
